@@ -566,6 +566,20 @@ type BlankOp struct {
 	Eager *WLayer `json:"eager,omitempty"`
 }
 
+// mutSource is a non-watching inner source whose data can change between two
+// SetSource calls with the SAME object (how a caller refreshes such a source).
+type mutSource struct {
+	l   WLayer
+	err error
+}
+
+func (m *mutSource) Value(_ context.Context, t *dials.Type) (reflect.Value, error) {
+	if m.err != nil {
+		return reflect.Value{}, m.err
+	}
+	return wNative(t.Type(), m.l), nil
+}
+
 // eagerWatcher is a watching inner source whose background goroutine reports
 // an update as soon as Watch has started it, while Watch itself is slow to
 // return (a file watcher that fires immediately).  Natively that update comes
@@ -595,7 +609,7 @@ func genC20Blank(t *rapid.T) C20BlankCase {
 	for i := 0; i < n; i++ {
 		switch rapid.IntRange(0, 9).Draw(t, "op") {
 		case 0, 1, 2, 3, 4:
-			op := BlankOp{K: "set", Kind: rapid.SampledFrom([]string{"static", "static", "watching", "value-error", "watch-error", "nil", "watcher-value-error"}).Draw(t, "kind"), L: genWLayer(t, i+1)}
+			op := BlankOp{K: "set", Kind: rapid.SampledFrom([]string{"static", "static", "watching", "value-error", "watch-error", "nil", "watcher-value-error", "refresh", "refresh", "refresh-error"}).Draw(t, "kind"), L: genWLayer(t, i+1)}
 			if op.Kind == "watching" && rapid.Bool().Draw(t, "eager") {
 				e := genWLayer(t, 100+i)
 				op.Eager = &e
@@ -662,6 +676,7 @@ func runC20Blank(c C20BlankCase) (verdict vrt.Verdict) {
 		_ = typ
 		// model
 		var otherL, blankL WLayer
+		var lastMut *mutSource         // the object of the most recently set non-watching inner source
 		var innerStatic *WLayer        // most recently set non-watching inner
 		var innerWatcher *fake.Watcher // once set, owns the slot
 		blankDone, otherDone := false, false
@@ -690,7 +705,19 @@ func runC20Blank(c C20BlankCase) (verdict vrt.Verdict) {
 				var nw *fake.Watcher
 				switch op.Kind {
 				case "static":
-					s = &fake.Static{Mk: func(t *dials.Type) reflect.Value { return wNative(t.Type(), l) }}
+					lastMut = &mutSource{l: l}
+					s = lastMut
+				case "refresh", "refresh-error":
+					// the very same source object again, with new data (or now failing)
+					if lastMut == nil || innerWatcher != nil || !monAlive {
+						continue
+					}
+					if op.Kind == "refresh" {
+						lastMut.l, lastMut.err = l, nil
+					} else {
+						lastMut.err = errInner
+					}
+					s = lastMut
 				case "watching":
 					nw = &fake.Watcher{Mk: func(t *dials.Type) reflect.Value { return wNative(t.Type(), l) }}
 					s = nw
@@ -743,6 +770,13 @@ func runC20Blank(c C20BlankCase) (verdict vrt.Verdict) {
 						return
 					}
 					labels["refused-to-replace-watcher"] = true
+				case op.Kind == "refresh-error":
+					if err == nil || !errors.Is(err, errInner) {
+						fail("%s: SetSource with the same source object, whose Value now fails, returned %v, want the inner error (the source must be asked again)", step, err)
+						return
+					}
+					lastMut.err = nil
+					labels["same-source-reset"] = true
 				case op.Kind == "value-error" || op.Kind == "watcher-value-error":
 					if err == nil || !errors.Is(err, errInner) {
 						fail("%s: SetSource with a failing Value returned %v, want the inner error", step, err)
@@ -776,6 +810,9 @@ func runC20Blank(c C20BlankCase) (verdict vrt.Verdict) {
 					} else {
 						innerStatic = &l
 						labels["static-installed"] = true
+						if op.Kind == "refresh" {
+							labels["same-source-reset"] = true
+						}
 					}
 				}
 			case "done":
@@ -861,7 +898,7 @@ func TestC20Blank(t *testing.T) {
 	curT = t
 	vrt.Check(t, vrt.Prop[C20BlankCase]{
 		ID: "C20", Name: "blank",
-		Rule: "scripts of 1..8 operations on a sourcewrap.Blank inside a real Dials (optionally next to another watcher): SetSource(static | watching | failing Value (static or watching source) | failing Watch | nil), Done, reports from the inner watcher and from the other watcher; " +
+		Rule: "scripts of 1..8 operations on a sourcewrap.Blank inside a real Dials (optionally next to another watcher): SetSource(static | the same static source object again with new or now failing data | watching | failing Value (static or watching source) | failing Watch | nil), Done, reports from the inner watcher and from the other watcher; " +
 			"a watching inner source may report an update from its own goroutine as soon as its (slow) Watch has started; " +
 			"oracle: reference model of Blank - the view always stacks the latest value of each slot (an update reported right after Watch started comes after the initial value, as it would natively), SetSource propagates inner errors and refuses to replace a watching inner source, Blank.Value delegates to the most recently set non-watching inner source, Done ends the watch slot (monitor exits when it was the last) only while Blank still owns it; " +
 			"non-trivial = a refused replacement or a Done call; distinct = distinct case JSON",
